@@ -1867,7 +1867,11 @@ namespace hs
             return;
         auto& heap = SimHeap::get();
         int   idx  = index_of(*S);
-        int   kind = int(op.arg(1)) % 3;
+        int   kind = int(op.arg(1)) % 4;
+        // kind 3: a mixed cycle {node, node, array of 2}; only pools that keep their free nodes ordered promise
+        // that it finds the same memory again (an unordered node list may have to grow for the array)
+        if (kind == 3 && (!S->o->caps.array || S->o->name.find(".array") == std::string::npos))
+            kind = 1;
         if (kind == 2 && !S->o->caps.array)
             kind = 1;
         auto n    = 1 + std::size_t(op.arg(2)) % 12;
@@ -1875,16 +1879,30 @@ namespace hs
         Req  r    = sanitize(*S, int(op.arg(4)) % 2, kind == 2, (long long)n - 1, op.arg(5), 0);
         if (r.fam == COMP)
             r.fam = TRAITS;
+        Req r2 = r; // (kind 3: the array of two nodes of the same size)
+        if (kind == 3)
+        {
+            r = sanitize(*S, int(op.arg(4)) % 2, false, 0, op.arg(5), 0);
+            if (r.fam == COMP)
+                r.fam = TRAITS;
+            r2       = r;
+            r2.array = true;
+            r2.count = 2;
+            if (S->o->caps.kind == K_POOL)
+                r.size = r2.size = S->o->reading(4); // whole nodes
+            stats().hit("reach.cycle_mixed_nodes_and_array");
+        }
         std::vector<std::size_t> first, now;
         std::uint64_t            req_first = 0;
+        bool                     settled   = false;
         for (std::size_t rep = 0; rep < reps; ++rep)
         {
             std::vector<char*> got;
-            std::size_t        want = kind == 1 ? n : 1;
+            std::size_t        want = kind == 1 ? n : kind == 3 ? 3 : 1;
             for (std::size_t i = 0; i < want; ++i)
             {
                 Alloc* a = nullptr;
-                if (!do_alloc(*S, idx, r, 0, &a, false))
+                if (!do_alloc(*S, idx, kind == 3 && i == 2 ? r2 : r, 0, &a, false))
                     break;
                 got.push_back(a->p);
             }
@@ -1903,6 +1921,23 @@ namespace hs
                 do_free(shadow_.take(p));
             }
             snapshot_caps(*S, now);
+            if (kind == 3)
+            {
+                // With an array in the cycle the first repetitions may legitimately grow (the nodes taken first can
+                // split the only run of adjacent free nodes). But an ordered list is a function of the set of its
+                // free nodes: once a repetition has ended where it began, every later one repeats it exactly.
+                bool grew = rep > 0 && (heap.total_requests() != req_first || now != first);
+                if (rep > 0 && !grew)
+                    settled = true;
+                else if (grew && settled)
+                    violate("C04", "cycle_grows", "a cycle {node, node, array of 2} (size %zu) on a pool that keeps "
+                                                  "its free nodes ordered had repeated without growth, repetition "
+                                                  "%zu grew the pool (%llu upstream request(s))",
+                            r.size, rep + 1, (unsigned long long)(heap.total_requests() - req_first));
+                first     = now;
+                req_first = heap.total_requests();
+                continue;
+            }
             if (rep == 0)
             {
                 first     = now;
